@@ -23,12 +23,12 @@ type TStep struct {
 
 // Expect describes what must happen to one request.
 type Expect struct {
-	Req     byte   `json:"req"`
-	Kind    string `json:"kind"` // timeout | granted | expried | cancelled | never-expires | no-grant
-	Lo, Hi  int64  // allowed window of the reply relative to From (ns); Hi < 0: only eventual
-	From    int64  `json:"from"` // reference instant (enqueue / grant / update)
-	FromReq byte   `json:"fromreq,omitempty"` // take From from the SUCCED reply time of this request
-	Alt     *Expect `json:"alt,omitempty"` // alternative allowed outcome (the property leaves both open)
+	Req     byte    `json:"req"`
+	Kind    string  `json:"kind"` // timeout | granted | expried | cancelled | never-expires | no-grant
+	Lo, Hi  int64   // allowed window of the reply relative to From (ns); Hi < 0: only eventual
+	From    int64   `json:"from"`              // reference instant (enqueue / grant / update)
+	FromReq byte    `json:"fromreq,omitempty"` // take From from the SUCCED reply time of this request
+	Alt     *Expect `json:"alt,omitempty"`     // alternative allowed outcome (the property leaves both open)
 }
 
 type TimedCase struct {
